@@ -235,6 +235,85 @@ func concChanSubjects() []*concSpec {
 // only once that input returns. Whether that is "silence" in the sense of the statement depends on
 // whether a source whose Close blocks is within it; it is written down for the reader, with the
 // elapsed time used only to tell the two behaviours apart (no verdict).
+// gatedProbe is a probe source that fails after its items and whose Close blocks on a gate.
+type gatedProbe struct {
+	*vkit.ProbeStream[int]
+	gate chan struct{}
+}
+
+func (g gatedProbe) Close() { g.ProbeStream.Close(); <-g.gate }
+
+// observeBlockedClose records - and does NOT judge - the combinators that on the clean tree report
+// their source's failure only after the source's Close has returned: parallel.MapStream (its reader
+// goroutine defers s.Close() and Next waits for the whole group), and with it every pipeline that
+// reads through MapStream; and the reducers (defer s.Close() before returning, by design).
+func observeBlockedClose(r *vkit.Report) {
+	const table = "not judged: the source fails with E and its Close blocks until released"
+	bg := context.Background()
+	type probe struct {
+		name string
+		run  func(src stream.Stream[int]) error
+	}
+	drain := func(s stream.Stream[int]) error {
+		for {
+			if _, err := s.Next(bg); err != nil {
+				return err
+			}
+		}
+	}
+	for _, pr := range []probe{
+		{"MapStream", func(src stream.Stream[int]) error {
+			s := parallel.MapStream(bg, src, 2, 0, func(ctx context.Context, x int) (int, error) { return x, nil })
+			err := drain(s)
+			go s.Close()
+			return err
+		}},
+		{"Collect", func(src stream.Stream[int]) error { _, err := stream.Collect(bg, src); return err }},
+		{"Batch", func(src stream.Stream[int]) error {
+			s := stream.Batch(src, time.Hour, 2)
+			for {
+				if _, err := s.Next(bg); err != nil {
+					go s.Close()
+					return err
+				}
+			}
+		}},
+		{"Merge", func(src stream.Stream[int]) error {
+			s := stream.Merge(src)
+			err := drain(s)
+			go s.Close()
+			return err
+		}},
+	} {
+		p := vkit.NewProbeStream("a", []int{11})
+		p.HonourCtx = true
+		p.FatalAt, p.Fatal = 1, errSrcFatal
+		gate := make(chan struct{})
+		done := make(chan error, 1)
+		run := pr.run
+		go func() { done <- run(gatedProbe{p, gate}) }()
+		var err error
+		early := true
+		select {
+		case err = <-done:
+		case <-time.After(300 * time.Millisecond):
+			early = false
+		}
+		close(gate)
+		if !early {
+			err = <-done
+		}
+		switch {
+		case early && errors.Is(err, errSrcFatal):
+			r.Count(table, pr.name+": E was reported while the source's Close was still blocked", 1)
+		case errors.Is(err, errSrcFatal):
+			r.Count(table, pr.name+": E was reported only after the source's Close was released (>= 300 ms later)", 1)
+		default:
+			r.Count(table, pr.name+": something other than E was reported: "+errString(err), 1)
+		}
+	}
+}
+
 func observeMapStreamOverBlockedMerge(r *vkit.Report) {
 	const table = "not judged: MapStream over a Merge one of whose inputs is blocked in a context-ignoring Next"
 	for par := 1; par <= 2; par++ {
@@ -350,13 +429,27 @@ type concRun struct {
 
 	blockedCh   chan int // chanLast subjects: the channel behind the blocked input
 	releaseOnce sync.Once
+	gated       bool // every probe source's Close blocks until release
 }
 
 // release unblocks the context-ignoring input (after the verdict) so that everything can be torn down.
 func (cr *concRun) release() {
-	if cr.blockedCh != nil {
-		cr.releaseOnce.Do(func() { close(cr.blockedCh) })
-	}
+	cr.releaseOnce.Do(func() {
+		if cr.blockedCh != nil {
+			close(cr.blockedCh)
+		}
+		if cr.e != nil && cr.e.gate != nil {
+			close(cr.e.gate)
+		}
+	})
+}
+
+// gateOK: the subject can be given sources whose Close blocks until after the verdict. Excluded
+// (recorded, not judged - see observeBlockedClose): everything that reads such a source through
+// parallel.MapStream, whose reader goroutine closes the source before the error group can report,
+// and the reducers, which by design close their stream before they return.
+func (spec *concSpec) gateOK() bool {
+	return spec.reducer == "" && !spec.usesPipe && !strings.Contains(spec.name, "MapStream")
 }
 
 // pauser parks the other workers while one worker asks vkit.Await whether its scenario is stuck
@@ -415,6 +508,12 @@ func (cr *concRun) exec(rnd *vkit.Rand) (verdict vkit.AwaitVerdict, dump string)
 	e := newEnv(true, pert)
 	cr.e = e
 	spec := cr.spec
+	if spec.gateOK() && rnd.Intn(2) == 0 {
+		// The source's Close blocks on a gate that is opened only after the verdict: what the
+		// source delivered and its failure must reach the consumer while Close is still blocked.
+		e.gate = make(chan struct{})
+		cr.gated = true
+	}
 	n := len(refConcat(cr.parts))
 
 	// sources and their fault plans first: the library starts pulling at construction
@@ -1099,7 +1198,7 @@ func concurrent(r *vkit.Report) {
 			verdict, dump := cr.exec(rnd)
 			r.Eval(1)
 			witness := func() map[string]any {
-				return map[string]any{"subject": spec.name, "parts": pc.parts, "faults": pc.cfg.fs, "params": prm, "repetition": rep}
+				return map[string]any{"subject": spec.name, "parts": pc.parts, "faults": pc.cfg.fs, "params": prm, "repetition": rep, "source_close_blocked": cr.gated}
 			}
 			switch verdict {
 			case vkit.AwaitStuck:
@@ -1160,6 +1259,14 @@ func concurrent(r *vkit.Report) {
 					}
 				}
 			}
+			if cr.gated {
+				switch o.terminal {
+				case "fatal":
+					r.Count("timing", "E received while every source's Close was held blocked", 1)
+				case "end":
+					r.Count("timing", "End received while every source's Close was held blocked", 1)
+				}
+			}
 			if o.terminal == "fatal" && spec.chanLast {
 				r.Count("timing", "E received while another input was blocked in a context-ignoring Next", 1)
 			}
@@ -1210,6 +1317,7 @@ func concurrent(r *vkit.Report) {
 	})
 	if !r.Replaying() {
 		observeMapStreamOverBlockedMerge(r)
+		observeBlockedClose(r)
 	}
 	r.SetExhaustive(false)
 	sigMu.Lock()
